@@ -486,5 +486,37 @@ End UDD.
 
 Lemma udd_closed n z : dd_F (udd_times n) z = UDD z (Z.of_nat n).
 Proof.
-  rewrite udd_U_shipped. unfold dd_F. rewrite udd_y, cabs2_neg, cabs2_mul, cexp_abs2, cabs2_conj. ring.
+  rewrite udd_U_shipped. unfold dd_F. rewrite udd_y, cabs2_neg, cabs2_mul, cexp_abs2, cabs2_conj, Rmult_1_l. reflexivity.
 Qed.
+
+(* ------------------------------------------------------------------ link to the numeric model *)
+(* One segment of the control matrix for H_c = 0 (eigenvalues 0): the model's phase factor times
+   its first-order integral, multiplied by i w, is the spec's increment e^{i w t_{g+1}} - e^{i w t_g}. *)
+From FF Require Import Model.Numeric.
+Lemma foi_segment_dd thr w tg dt : thr < Rabs (w * dt) -> 0 <= thr ->
+  cmul' (cmul' ic (cofr RO w)) (cmul' (cexp' (w * tg)) (foi_entry RO thr w 0 0 dt)) =
+  csub' (cexp' (w * (tg + dt))) (cexp' (w * tg)).
+Proof.
+  intros H Hthr. unfold foi_entry, cite. cbn [oadd osub omul oabs ogt oite RO osin ocos odiv o1 o0 fst snd].
+  replace (w + (0 - 0)) with w by ring.
+  apply Rgtb_true in H. rewrite H.
+  assert (Hw : w <> 0).
+  { intros ->. apply Rgtb_true in H. rewrite Rmult_0_l, Rabs_R0 in H. lra. }
+  rewrite Rmult_plus_distr_l, cexp_add. apply c_eq; csimp; field; auto.
+Qed.
+
+(* the weight 1/2: sum_k |tr(sigma_z/2 C_k)|^2 over the normalised Pauli basis, only C_3 = sigma_z/sqrt 2 contributes *)
+Lemma dd_weight : (2 * (1 / 2 * (1 / sqrt 2))) ^ 2 = 1 / 2.
+Proof.
+  assert (H : sqrt 2 * sqrt 2 = 2) by (apply sqrt_sqrt; lra).
+  assert (H0 : sqrt 2 <> 0) by (intros E; rewrite E in H; lra).
+  replace ((2 * (1 / 2 * (1 / sqrt 2))) ^ 2) with (1 / (sqrt 2 * sqrt 2)) by (field; auto).
+  rewrite H. reflexivity.
+Qed.
+
+(* ------------------------------------------------------------------ satisfiable guards, sample orders *)
+From Interval Require Import Tactic.
+Example pdd_guard_sat : cos (1 / (2 * INR 3 + 2)) <> 0.
+Proof. simpl INR. assert (0 < cos (1 / (2 * (1 + 1 + 1) + 2))) by interval. lra. Qed.
+Example cpmg_guard_sat : cos (1 / (2 * INR 4)) <> 0.
+Proof. simpl INR. assert (0 < cos (1 / (2 * (1 + 1 + 1 + 1)))) by interval. lra. Qed.
